@@ -19,7 +19,7 @@ import numpy as np
 from harness import alpha, core, gamma, lattice, shims, tlc, util
 
 INV = ["SpecNonEmpty", "SliceRefines", "NoUninit", "GridLevelOK", "Emit"]
-SENTINEL = 4.4e299
+SENTINELS = [4.4e299, -4.4e299, float("nan")]
 FIELDS = ["u", "aff", "cst", "w"]
 
 
@@ -78,7 +78,7 @@ def run_scenario(chk, sc, cfgseed, axes, serial, fields, default_pos=False):
     pos = phys_pos(cfg_, lat, sc, cn)
     before = alpha.tree_digest(d)
     try:
-        with shims.pool_shim(shims.Scheduler(default="random", rng=random.Random(cfgseed))), shims.poison(SENTINEL), core.quiet():
+        with shims.pool_shim(shims.Scheduler(default="random", rng=random.Random(cfgseed))), shims.poison(SENTINELS[cfgseed % 3]), core.quiet():
             m = Mandoline(d, fields=list(fields), limit_level=lim, serial=serial, verbose=0)
             out = m.slice(normal=cn, pos=None if default_pos else pos, fformat="return")
         exc = None
